@@ -429,7 +429,8 @@ def finish(ctx: Ctx, level: str, checker_cmd: str, rule: str, explanation: str =
               assumptions=ctx.assumptions, wall_s=round(time.time() - ctx.t0, 2), violations=len(unlisted),
               repo_tree=repo_tree_hash())
     EVIDENCE.mkdir(exist_ok=True)
-    (EVIDENCE / f"{ctx.pid}.json").write_text(json.dumps(ev, indent=1, default=str))
+    if os.environ.get("VERIF_NOEVIDENCE") != "1":     # lead's mutant trials must not overwrite committed evidence
+        (EVIDENCE / f"{ctx.pid}.json").write_text(json.dumps(ev, indent=1, default=str))
     if rc == 0:
         print(f"OK property={ctx.pid} tier={ctx.tier} obligations={n_ok}/{n_ob} evaluations={cov['evaluations']} wall={ev['wall_s']}s")
     return rc
